@@ -124,6 +124,11 @@ pub fn run(seed: u64, count: usize, outdir: &str) -> std::io::Result<i32> {
                 let gs = e.eval_with_transform(&tape, &xs, &ys, &zs, &m4).unwrap().to_vec();
                 let (mut nb, mut firstn) = (0usize, None);
                 for (k, s) in surf.iter().enumerate() {
+                    // a min / max of two equal operands at the hit voxel: the value is fixed, the gradient is either operand's (and the
+                    // renderer takes it from a simplified tape); such a voxel has no single reference normal
+                    { let q = m4.transform_point(&Point3::new(s.0 as f32, s.1 as f32, s.2 as f32)); let mut orc = Oracle::default();
+                      let _ = eval_arena(&g.ctx, &|v: Var| match v { Var::X => q.x, Var::Y => q.y, Var::Z => q.z, _ => f32::NAN }, &mut orc);
+                      if orc.minmax_tie || orc.zero_tie || orc.atan00 || orc.abs_of_neg_zero { continue; } }
                     let n = img[s.1 * w + s.0].normal; let gk = gs[k];
                     let want = [gk.dx, gk.dy, gk.dz];
                     let mag = want.iter().fold(1.0f32, |a, b| a.max(b.abs()));
